@@ -3,6 +3,7 @@ package main
 import (
 	"fmt"
 	"math/rand"
+	"sort"
 	"strconv"
 	"strings"
 
@@ -96,7 +97,7 @@ func monitorReg(mon *lib.Monitor, e entry, c regCase, answer string) {
 	for n := range reg {
 		keys = append(keys, n)
 	}
-	sortStrings(keys)
+	sort.Slice(keys, func(i, j int) bool { return nameKey(keys[i]) < nameKey(keys[j]) })
 	for _, n := range keys {
 		names = append(names, tilde(n)+":"+strconv.Itoa(reg[n]))
 	}
@@ -130,7 +131,7 @@ func sortStrings(xs []string) {
 }
 
 func runRegistry(f lib.Flags, res *lib.Result, drv *lib.Driver) {
-	tie := res.Tie("registry", "K1", "random histories of Add/Remove/Has/Get (0-12 ops, 5 names incl. the empty name, client ids 1-9) x fallback kind x factory kind (none/new/err/nil/both/pfx/odd, factories installed through the generated With<Client>Factory), executed on generated routers chosen round-robin from the table (so on pkg/router through every generated Add/HoldsType override, and every other round through the generated typed Add<Client>/Remove<Client>/Get<Client>); results, onChange log, final registry (read back through Has/Remove) and factory call counts compared with the Lean model; distinct = (fallback, factory, ops)")
+	tie := res.Tie("registry", "K1", "random histories of Add/Remove/Has/Get (0-12 ops, a pool of 17 names: ordinary ones, the empty name, and unusual ones (blank, leading/trailing blank, case variants X/x Ab/aB/ab, containing / or NUL, non-ASCII, 5000 characters), client ids 1-9) x fallback kind x factory kind (none/new/err/nil/both/pfx/odd, factories installed through the generated With<Client>Factory), executed on generated routers chosen round-robin from the table (so on pkg/router through every generated Add/HoldsType override, and every other round through the generated typed Add<Client>/Remove<Client>/Get<Client>); results, onChange log, final registry (read back through Has/Remove) and factory call counts compared with the Lean model; distinct = (fallback, factory, ops)")
 	mon := res.Monitor("registry-map", "same histories against a plain Go map with the documented resolution order")
 	rng := lib.NewRand(f.Seed + 1)
 	n := f.N(1500, 150000)
